@@ -4,7 +4,9 @@
    Reading guide.  [run_fixed sim0 ops] is the log of atomic write units (puts and whole
    batches, in program order) that the scenario [ops] (imports with optional GRANDPA scheduled /
    forced change digests, finalisations; operations that are not valid in the state they meet are
-   skipped) makes the dot/state services issue after genesis, together with the final block
+   skipped; a finalisation is issued the way lib/grandpa issues it: justification, prevotes,
+   precommits, SetFinalisedHash, SetLatestRound, then ApplyScheduledChanges) makes the dot/state
+   services issue after genesis, together with the final block
    table.  [replay db0 (firstn n ws)] is the database a crash after the n-th unit leaves.
    [recover] is the restart path (Service.Start and the reads the property names). *)
 From Coq Require Import List NArith Bool.
@@ -59,7 +61,7 @@ Example C36_nonvacuous :
   let ops := [Imp 0 DNone; Imp 0 DNone; Imp 1 (DForced 1); Imp 3 DNone; Fin 3 1;
               Imp 4 (DSched 0); Fin 5 2; Imp 5 DNone] in
   scenario_valid ops = true /\
-  length (fst (run_fixed sim0 ops)) = 33%nat /\
+  length (fst (run_fixed sim0 ops)) = 39%nat /\
   recover (s_blocks (snd (run_fixed sim0 ops))) (replay db0 (fst (run_fixed sim0 ops))) = VOk 5 2 1 2.
 Proof. vm_compute. repeat split; reflexivity. Qed.
 
@@ -70,6 +72,6 @@ Proof. vm_compute. repeat split; reflexivity. Qed.
 Example C36_nonvacuous_refinalise :
   let ops := [Imp 0 DNone; Fin 1 1; Fin 1 2; Imp 1 (DSched 1); Fin 1 3; Imp 2 DNone; Fin 3 4; Fin 3 1] in
   scenario_valid ops = true /\
-  length (fst (run_fixed sim0 ops)) = 33%nat /\
+  length (fst (run_fixed sim0 ops)) = 48%nat /\
   recover (s_blocks (snd (run_fixed sim0 ops))) (replay db0 (fst (run_fixed sim0 ops))) = VOk 3 1 1 1.
 Proof. vm_compute. repeat split; reflexivity. Qed.
